@@ -60,9 +60,9 @@ struct Prim {
 
 // the state alphabet of the C04 / C10 enumerations (dimensionless units: the
 // rest gas has rho = P = 1)
-static const int NSTATE = 8;
-static const char *const STATE_NAME[NSTATE] = {"rest",         "dense-cold",  "hot-thin", "supersonic+x",
-                                              "supersonic-x", "near-vacuum", "fast+x",   "fast-x"};
+static const int NSTATE = 10;
+static const char *const STATE_NAME[NSTATE] = {"rest",         "dense-cold",  "hot-thin", "supersonic+x", "supersonic-x",
+                                              "near-vacuum",  "fast+x",      "fast-x",   "denormal",     "vacuum"};
 static const Prim STATE[NSTATE] = {
     {1., {0., 0., 0.}, 1.},         // 0 rest gas
     {1.e3, {0., 0., 0.}, 0.1},      // 1 dense and cold
@@ -72,8 +72,13 @@ static const Prim STATE[NSTATE] = {
     {1.e-30, {0., 0., 0.}, 1.e-30}, // 5 near vacuum
     // extension used on the 4-cell grid only: Mach 1.13 (gamma 2) .. 1.6
     // (gamma 1.0001), i.e. around the wall Mach limit 1.5 of the property
-    {1., {1.6, 0., 0.}, 1.}, // 6
+    {1., {1.6, 0., 0.}, 1.},  // 6
     {1., {-1.6, 0., 0.}, 1.}, // 7
+    // emptiest states (4-cell grid: all assignments; 8-cell grids: inclusions):
+    // a density whose cell mass is a denormal number (1 / mass overflows) and
+    // exact vacuum
+    {1.e-310, {0., 0., 0.}, 1.e-310}, // 8
+    {0., {0., 0., 0.}, 0.},           // 9
 };
 
 /// cell grid, subgrid layout, cell shape and boundary mix
@@ -395,9 +400,18 @@ public:
 
   /// One hydro step: reset_hydro_tasks, then execute_task on every task in a
   /// dependency respecting order.
+  /// If `nonfinite_origin` is given, all variables of the subgrids a task
+  /// touched are scanned after every task and the stage in which the first
+  /// non-finite value appears is returned there ("" if none appears).
   StepTrace step(const Hydro &hydro, const double dt, const int policy, const uint64_t seed = 0,
-                 const bool record_order = false) {
+                 const bool record_order = false, std::string *nonfinite_origin = nullptr) {
     StepTrace tr;
+    if (nonfinite_origin) {
+      nonfinite_origin->clear();
+      for (size_t is = 0; is < sub_ptr.size() && nonfinite_origin->empty(); ++is)
+        if (!subgrid_finite(is))
+          *nonfinite_origin = "initial-state";
+    }
     tr.tasks_total = ntask;
     ThreadSafeVector< Task > &T = *tasks;
     for (auto it = grid->begin(); it != grid->original_end(); ++it)
@@ -463,6 +477,13 @@ public:
       execute_task(itask, *grid, T, dt, hydro, *boundaries);
       if (type == TASKTYPE_PREDICT_PRIMITIVES)
         observe_after_predict(isub, hydro, tr);
+      if (nonfinite_origin && nonfinite_origin->empty()) {
+        bool fin = subgrid_finite(isub);
+        if (type == TASKTYPE_GRADIENTSWEEP_EXTERNAL_NEIGHBOUR || type == TASKTYPE_FLUXSWEEP_EXTERNAL_NEIGHBOUR)
+          fin = fin && subgrid_finite(T[itask].get_buffer());
+        if (!fin)
+          *nonfinite_origin = stage_name(type);
+      }
       done[itask] = 1;
       ++tr.tasks_executed;
       const uint32_t t32 = itask;
@@ -477,6 +498,42 @@ public:
       }
     }
     return tr;
+  }
+
+  /// stage of the step a task type belongs to (stable part of violation keys)
+  static const char *stage_name(const int type) {
+    switch (type) {
+    case TASKTYPE_GRADIENTSWEEP_INTERNAL:
+    case TASKTYPE_GRADIENTSWEEP_EXTERNAL_NEIGHBOUR:
+    case TASKTYPE_GRADIENTSWEEP_EXTERNAL_BOUNDARY:
+      return "gradient-sweep";
+    case TASKTYPE_SLOPE_LIMITER:
+      return "slope-limiter";
+    case TASKTYPE_PREDICT_PRIMITIVES:
+      return "prediction";
+    case TASKTYPE_FLUXSWEEP_INTERNAL:
+    case TASKTYPE_FLUXSWEEP_EXTERNAL_NEIGHBOUR:
+    case TASKTYPE_FLUXSWEEP_EXTERNAL_BOUNDARY:
+      return "flux-sweep";
+    case TASKTYPE_UPDATE_CONSERVED:
+      return "conserved-update";
+    case TASKTYPE_UPDATE_PRIMITIVES:
+      return "primitive-update";
+    }
+    return "unknown-task";
+  }
+
+  /// all hydro variables (primitive, conserved, accumulators, gradients) of a subgrid finite?
+  bool subgrid_finite(const size_t isub) {
+    const HydroVariables *hv = sub_ptr[isub]->_hydro_variables;
+    for (size_t i = 0; i < cells_per_sub; ++i)
+      for (int j = 0; j < 5; ++j) {
+        if (!std::isfinite(hv[i].primitives(j)) || !std::isfinite(hv[i].conserved(j)) ||
+            !std::isfinite(hv[i].delta_conserved(j)) || !std::isfinite(hv[i].primitive_gradients(j)[0]) ||
+            !std::isfinite(hv[i].primitive_gradients(j)[1]) || !std::isfinite(hv[i].primitive_gradients(j)[2]))
+          return false;
+      }
+    return true;
   }
 
 private:
